@@ -1,7 +1,8 @@
 #!/bin/bash
 # tools/seedrun.sh [CNN-k ...] : run each kept seeded change against its property's quick check; table on stdout
 cd /verif
-for d in "${@:-$(ls seeded)}"; do
+if [ $# -eq 0 ]; then set -- $(ls seeded); fi
+for d in "$@"; do
   d="$(basename "$d")"; pid="${d%%-*}"
   [ -f "seeded/$d/patch.diff" ] || continue
   out="$(MUT_LINES=3 tools/mutest.sh "seeded/$d/patch.diff" "$pid" quick 2>&1)"
